@@ -33,11 +33,11 @@ func (r *Runner) CalmStart() {
 		}
 	}
 	w.Srv.RunGC()
-	r.calmPremise()
+	r.CalmPremise()
 }
 
 // calmPremise removes name squatters and restarts exempted terminal pods (see CalmStart).
-func (r *Runner) calmPremise() {
+func (r *Runner) CalmPremise() {
 	w := r.W
 	for _, name := range r.Sets {
 		s := w.GetSet(name)
@@ -78,7 +78,7 @@ func (r *Runner) calmPremise() {
 func (r *Runner) CalmRound() []*Record {
 	w := r.W
 	w.Srv.RunGC()
-	r.calmPremise()
+	r.CalmPremise()
 	for _, n := range w.PodNames() {
 		w.Kubelet(n, "settle")
 	}
